@@ -162,3 +162,8 @@ mod tests {
         }
     }
 }
+
+#[cfg(kani)]
+mod verif_kani {
+    include!(concat!(env!("REPE_VERIF_KANI"), "/header.rs"));
+}
